@@ -40,7 +40,7 @@ ASSUMPTIONS = [
     "to the options the re-parsed quantizer lost (behavioural test against a "
     "directly built quantizer without them)",
 ]
-BUDGET_S = {"quick": 80, "thorough": 840}
+BUDGET_S = {"quick": 120, "thorough": 840}
 _LITS = ["lit:int", "lit:float", "lit:bool", "lit:none", "lit:str", "lit:list",
          "lit:list1"]
 _REQ = (["stub", "order", "exotic", "quant", "str_lattice", "str_hyp",
@@ -315,6 +315,12 @@ def quant_case_strategy():
   def case(draw):
     c = draw(O.config_strategy(text_only=True))
     cls, kw = c["cls"], c["kw"]
+    # one-element lists are the known mis-parse C10-KF01 (checked in mode
+    # 'stub' and in the str round trip); keep them out of the object oracle
+    kw = {k: v for k, v in kw.items()
+          if not (isinstance(v, list) and len(v) == 1)}
+    if not O.admissible(cls, kw):
+      kw = {k: v for k, v in kw.items() if k != "elements_per_scale"}
     sp_ = O.signature_params(cls)
     names = list(sp_)
     # positional prefix: scalar literals only (lists are keyword-only in the
